@@ -215,7 +215,7 @@ def generate():
     header = ("-- GENERATED by harness/gen_pods.py from the live descriptor objects of /repo. Do not edit.\n")
 
     # enum classes
-    e_src = [header, "import Capella.Model.Pods\n", "namespace Capella.Gen.Pods\nopen Capella.Pods\n\n"]
+    e_src = [header, "import Capella.Model.PodsTable\n", "namespace Capella.Gen.Pods\nopen Capella.Pods\n\n"]
     for q in sorted(enums):
         e = enums[q]
         mem = ", ".join(f"({ls(n)}, {ls(v)})" for n, v in e["members"])
